@@ -31,6 +31,7 @@ def run(prog: Program, rep: Report, tier: str) -> None:
     rep.rule("R6.1", "gate normal form: hex(m)[0:4] == 'fef0' and len(m) in {165,168,159}; no other conjunct or disjunct; the gate itself cannot raise", 3)
     rep.rule("R6.2", "silent rejection: when the gate is false the only effect is a debug log and the function returns None - no callback, no warning, no exception; nothing that can raise is evaluated before the gate", 3)
     rep.rule("R6.3", "unknown model: for a frame that passes the gate with a model code outside DeviceType, the model lookup returns (does not raise) and the builder warns 'unknown' exactly once and constructs no device", 2)
+    rep.rule("R6.5", "each byte string is judged on its own: nothing on the builder's path stores to an object that outlives the call, declares a global, or mutates a module-level container", 1)
     rep.rule("R6.4", "model extraction: the type is looked up in the complete DeviceType.hex_rep table with the hex text of bytes 74..75", 1)
     rep.trusted += ["slicing never raises; bytes.__len__; hexlify; dict semantics; logger.debug has no observable effect for the property", "spec/broadcast_layout.json gate section (from the property statement)"]
     spec = load_spec()
@@ -88,6 +89,12 @@ def run(prog: Program, rep: Report, tier: str) -> None:
         early = [o for o in accepting if o.kind == "raise" and not (gate_cond in o.state.pc or all(x in o.state.pc for x in flatten(gate_cond, "and")))]
         rep.check(not early, "R6.2", "nothing raises before the gate", pwhere,
                   f"{len(early)} raising path(s) are not guarded by the gate, e.g. {early[0].exc_name + ' at ' + early[0].value[3] if early else ''}: a foreign datagram can raise", key="R6.2|before-gate")
+
+    # ---- R6.5 each frame is treated on its own (no memory between datagrams)
+    from .c07 import receive_path_state
+    st65 = receive_path_state(prog, pouts)
+    rep.check(not st65, "R6.5", "the builder keeps no memory between datagrams", pwhere,
+              f"{st65[:3]}: what happens to a frame (device, warning, silence) now depends on the frames seen before it - e.g. a second unknown-model frame no longer gets its warning", key="R6.5|state")
 
     # ---- R6.4 model extraction
     outs, gfi = run_getter(prog, "aioswitcher.bridge:DatagramParser", "get_device_type", "message", MSG, 159)
